@@ -160,5 +160,5 @@ class Workspace:
             fcntl.flock(lockf, fcntl.LOCK_UN)
             lockf.close()
 
-    def bin_path(self, b):
-        return os.path.join(self.target, "debug", b)
+    def bin_path(self, b, release=False):
+        return os.path.join(self.target, "release" if release else "debug", b)
